@@ -146,13 +146,16 @@ class ClassInfo:
 
 def walk_local(fn_node) -> Iterator[ast.AST]:
     """Walk a function body without descending into nested defs / lambdas / classes."""
-    stack = list(ast.iter_child_nodes(fn_node))
+    if isinstance(fn_node, (ast.FunctionDef, ast.AsyncFunctionDef)):
+        stack = list(reversed(fn_node.body))
+    else:
+        stack = list(reversed(list(ast.iter_child_nodes(fn_node))))
     while stack:
         n = stack.pop()
         yield n
         if isinstance(n, (ast.FunctionDef, ast.AsyncFunctionDef, ast.ClassDef, ast.Lambda)):
             continue
-        stack.extend(ast.iter_child_nodes(n))
+        stack.extend(reversed(list(ast.iter_child_nodes(n))))
 
 
 def walk_all(node) -> Iterator[ast.AST]:
